@@ -145,3 +145,21 @@ REG.contract('C11', I, 'Installer.install_subdirs', variant='entries1',
              method_effects={'should_install': {'returns': Bool, 'raises': []}, 'do_copydir': [], 'makedirs': [], 'log': []},
              modifies=['self.did_install_something'], floor=6,
              note='a selected subdirectory: its destination (re-rooted) is created and the tree is copied there with ITS excludes, mode and follow_symlinks setting')
+
+# ---- uninstall: each logged path is removed by ONE call that matches what the path is — a directory by rmdir, anything else
+# (a file, a symbolic link whatever it points to) by unlink; a failure is counted, never fatal
+UN = 'mesonbuild/scripts/uninstall.py'
+RM = "[e for e in __trace__ if e[0] in ('rmdir', 'unlink')]"
+ISD = "[e for e in __trace__ if e[0] == 'isdir']"
+ISL = "[e for e in __trace__ if e[0] == 'islink']"
+REG.contract('C11', UN, 'do_uninstall', variant='one-entry', region=('Try', 'os.rmdir(fname)'),
+             params={'fname': Str, 'failures': Int, 'successes': Int},
+             ensures=[f"len({RM}) == 1 and {RM}[0][1] == fname",
+                      f"len({ISD}) == 1 and {ISD}[0][1] == fname",
+                      # a symbolic link is never treated as a directory, whatever it points to
+                      f"({RM}[0][0] == 'rmdir') == ({ISD}[0][-1] and len({ISL}) == 1 and not {ISL}[0][-1])",
+                      f"all(e[1] == fname for e in {ISL})",
+                      "final('successes') + final('failures') == successes + failures + 1",
+                      f"(final('failures') == failures + 1) == (len([e for e in __trace__ if e[0] == 'raised']) == 1)"],
+             effects={'isdir': {'returns': Bool, 'raises': []}, 'islink': {'returns': Bool, 'raises': []}, 'rmdir': ['OSError'], 'unlink': ['OSError']},
+             floor=6, note='one logged path: removed with rmdir iff it is a real directory (not a link to one), with unlink otherwise; the outcome is counted as a success or a failure, and the loop goes on either way')
